@@ -14,7 +14,7 @@ def hexlit(h):
     return '(unhex "%s")' % ("" if h == "-" else h)
 
 
-def roots_for(U, want=None, exclude=("kf",)):
+def roots_for(U, want=None, exclude=("k13bulk",)):
     out = []
     for i, r in enumerate(U["roots"]):
         if any(t in r["tags"] for t in exclude):
